@@ -497,4 +497,9 @@ MC_NlSet == {<<13, 10>>, <<10>>}
 MC_StSet == {<<<<>>, <<>>, <<>>, <<>>, 0>>, <<<<>>, <<>>, <<>>, <<>>, 3>>, <<<<>>, <<>>, <<>>, <<>>, 7>>,
              <<<<>>, <<>>, <<>>, <<2>>, 0>>}
 
+MC_CsiSetBig == MC_CsiSet \cup {<<<<48, 49, 59, 51, 50>>, 109>>, <<<<>>, 75>>, <<<<50, 57>>, 67>>, <<<<63, 50, 53>>, 104>>,
+                              <<<<50, 53, 59, 49, 49, 57>>, 72>>}       \* ESC[01;32m ESC[K ESC[29C ESC[?25h ESC[25;119H
+MC_StSetBig == MC_StSet \cup {<<<<49, 115>>, <<27, 91, 63, 50, 53, 108>>, <<50, 115>>, <<>>, 0>>,
+                             <<<<49, 115>>, <<27, 91, 53, 32, 113>>, <<50, 115>>, <<4, 9>>, 0>>,
+                             <<<<49, 115>>, <<>>, <<50, 115>>, <<>>, 9>>}
 =============================================================================
